@@ -28,7 +28,13 @@ Record scase := mkCase {
     runtime part of the property (a starved select branch), observable only by running. *)
 Inductive case :=
 | Script (c : scase)
-| Flood (cap first taken events once : N) (e : end_obs).
+| Flood (cap first taken events once : N) (e : end_obs)
+| Crash (c : scase).
+(** [Crash c]: a scripted run in which the client future of ONE request panicked at virtual time
+    [p] = [c_stop c] (that request is listed with behaviour [Never]).  A panicking client is
+    outside the statement's hypotheses and what the manager does then is not prescribed (today
+    the panic unwinds run()); what is judged is that everything that was due BEFORE [p] was
+    delivered exactly as specified. *)
 
 Definition err_eqb (a b : err) : bool :=
   match a, b with
@@ -85,16 +91,18 @@ Definition stop_tie (tau : N) (eff : option N) (r : req) : bool :=
 Definition is_tie (m : mgr) (eff : option N) (r : req) : bool :=
   delay_tie (m_tau m) r || stop_tie (m_tau m) eff r.
 
-(** what a delay-tie request may legitimately produce: the response taken as in time, or the timeout *)
-Definition as_in_time (r : req) : req :=
-  mkReq (r_kind r) (r_exchange r) (r_instr r) (r_cid r) (r_arrival r)
-        (match r_beh r with Respond _ rs => Respond 0 rs | RespondBadKey _ => RespondBadKey 0 | Never => Never end).
-Definition shift (d : N) (e : event) : event :=
-  mkEv (e_exchange e) (e_instr e) (e_cid e) (e_out e) (e_time e + d).
+(** what a delay-tie request may legitimately produce: the timeout ([spec_event], since its delay
+    is not below the timeout), or the client's response taken as in time, delivered on that
+    same millisecond *)
+Definition response_alt (m : mgr) (r : req) : list event :=
+  match r_beh r with
+  | Respond _ rs => [mkEv (m_exchange m) (r_instr r) (r_cid r) (response_outcome (r_kind r) rs)
+                          (r_arrival r + m_tau m)]
+  | RespondBadKey _ => []
+  | Never => spec_event m r
+  end.
 Definition alternatives (m : mgr) (r : req) : list (list event) :=
-  if delay_tie (m_tau m) r
-  then [spec_event m r; map (shift (m_tau m)) (spec_event m (as_in_time r))]
-  else [spec_event m r].
+  if delay_tie (m_tau m) r then [spec_event m r; response_alt m r] else [spec_event m r].
 
 Definition events_eqb (a b : list event) : bool := list_eqb event_eqb a b.
 
@@ -112,9 +120,8 @@ Definition strip (cids : list N) (l : list event) : list event :=
 Definition end_matches (e : endst) (o : end_obs) : bool :=
   match e, o with Shutdown, ObsReturned | Panicked, ObsPanicked => true | _, _ => false end.
 
-(** input requirements: requests are sent in time order; the timeout is at least 1 ms *)
-Definition wf_case (c : scase) : bool :=
-  sorted_by_arrival (c_script c) && N.ltb 0 (m_tau (c_mgr c)).
+(** input requirement: requests are sent in time order (a timeout of 0 ms is allowed) *)
+Definition wf_case (c : scase) : bool := sorted_by_arrival (c_script c).
 
 Definition corr_b (c : scase) : bool :=
   let m := c_mgr c in
@@ -156,8 +163,18 @@ Definition flood_ok (cap first taken events once : N) (e : end_obs) : bool :=
   N.ltb first cap && N.eqb events taken && N.eqb once taken &&
   match e with ObsReturned => true | _ => false end.
 
+Definition before (p : N) (os : list oobs) : list oobs :=
+  filter (fun o => match o with OEv e _ _ => N.ltb (e_time e) p | OOther t => N.ltb t p end) os.
+
+Definition crash_ok (c : scase) : bool :=
+  match c_stop c with
+  | Some p => prop_b (mkCase (c_mgr c) (c_stop c) (c_script c) (before p (c_obs c)) ObsReturned)
+  | None => true
+  end.
+
 Definition judge (c : case) : N :=
   match c with
   | Script c => if wf_case c then judge_code (corr_b c) (prop_b c) 0 else 0%N
   | Flood cap first taken events once e => judge_code true (flood_ok cap first taken events once e) 0
+  | Crash c => if wf_case c then judge_code true (crash_ok c) 0 else 0%N
   end.
